@@ -118,7 +118,7 @@ def cmd_check(args, vx):
                         failed_lines.add(li)
         canaries_total += n_can
         canaries_failed += len(failed_lines)
-        if can.frontend_error and not can.diags:
+        if any(vx.classify(d) == "frontend" for d in can.diags) or (can.frontend_error and not can.diags):
             tool_problems.append(f"canary run front-end error in unit {u}")
         elif len(failed_lines) != n_can:
             missing = [i + 1 for i, l in enumerate(can.gen.lines) if "// CANARY" in l and "assert(false)" in l and i not in failed_lines]
